@@ -73,7 +73,7 @@ def twin_stream(tier, rnd, model_ok):
         ents = {v: view[v][0] for v in visible}
         ops = [("dump",)]
         for _ in range(rnd.randint(1, 6)):
-            k = rnd.choice([x for x in t2.MUTATORS if x != "removeall"] + ["stat", "lstat", "readlink", "read"])
+            k = rnd.choice(list(t2.MUTATORS) + ["stat", "lstat", "readlink", "read", "removeall"])
             o = t2.gen_op(rnd, ents, [k])
             # keep to names that are lexically not hidden, and do not rename ancestors of hidden paths
             names = [x for j, x in enumerate(o[1:], 1) if isinstance(x, bytes) and j in t2._PATH_ARGS.get(o[0], [])]
@@ -81,9 +81,13 @@ def twin_stream(tier, rnd, model_ok):
                 continue
             if o[0] == "symlink" and (lw.below_any(hs, pg.goclean(o[1])) if o[1].startswith(b"/") else lw.below_any(hs, pg.gojoin(pg.godir(pg.goclean(o[2])), o[1]))):
                 continue
-            if o[0] == "rename" and any(h != pg.goclean(o[1]) and pg.within(pg.goclean(o[1]), h) for h in hs):
-                continue
+            if o[0] in ("rename", "removeall") and any(h != pg.goclean(o[1]) and pg.within(pg.goclean(o[1]), h) for h in hs):
+                continue   # ancestors of hidden paths: the intended differences (C11)
             ops += [o, ("dump",)]
+        for v in visible:
+            # RemoveAll of a symlink (dangling, looping or not) and of plain files
+            if view[v][0] in ("L", "F") and rnd.random() < 0.4 and not any(pg.within(v, h) for h in hs):
+                ops += [("removeall", v), ("dump",)]
         cfga = {"ctor": "generic", "q": b"/unused-backup", "p": prefix, "hs": hs}
         cfgb = {"ctor": "generic", "q": b"/unused-backup", "p": prefix, "hs": []}
         cases.append(t2.Case("c15t-%d-a" % i, cfga, inits, ops, meta={"direct": True, "raw": True}))
@@ -101,13 +105,14 @@ def twin_stream(tier, rnd, model_ok):
             for i, o in enumerate(c.ops):
                 if o[0] == "dump":
                     continue
+                trig = ["removeall_unclean_name"] if (o[0] == "removeall" and pg.goclean(o[1]) != o[1]) else []
                 if a["R"].get(i) != b["R"].get(i):
-                    out.append((c.id, "%s %s: through HiddenFS %s, on the underlying filesystem %s" % (o[0], [enc(x) if isinstance(x, bytes) else x for x in o[1:]], a["R"].get(i), b["R"].get(i))))
+                    out.append((c.id, "%s %s: through HiddenFS %s, on the underlying filesystem %s" % (o[0], [enc(x) if isinstance(x, bytes) else x for x in o[1:]], a["R"].get(i), b["R"].get(i)), trig))
                     break
                 if sorted(a["S"].get(str(i + 1), [])) != sorted(b["S"].get(str(i + 1), [])):
                     out.append((c.id, "after %s %s the tree differs from the run on the underlying filesystem: %s" % (o[0], [enc(x) if isinstance(x, bytes) else x for x in o[1:]],
-                                                                                                                      sorted(set(a["S"].get(str(i + 1), [])) ^ set(b["S"].get(str(i + 1), [])))[:4])))
+                                                                                                                      sorted(set(a["S"].get(str(i + 1), [])) ^ set(b["S"].get(str(i + 1), [])))[:4]), trig))
                     break
         return out
     return worldrun.run_stream("C15", "twin_real_trees", cases, model_ok, level=1, post=post,
-                               desc="real trees around hidden paths in a chroot: every operation (except RemoveAll) on lexically non-hidden absolute names through HiddenFS and, as twin, directly on the underlying filesystem (OSFS or PrefixFS); the HiddenFS run is also compared with the model; oracle: identical results and identical trees after every operation")
+                               desc="real trees around hidden paths in a chroot: every operation (RemoveAll only where no hidden path lies beneath) on lexically non-hidden absolute names through HiddenFS and, as twin, directly on the underlying filesystem (OSFS or PrefixFS); the HiddenFS run is also compared with the model; oracle: identical results and identical trees after every operation")
